@@ -980,8 +980,8 @@ def oracle_round5(chk, quick):
 
     # ---- (1) every public spelling is the same function: then everything checked through one of them holds for all
     for name, f in sorted(vars(Z).items()):
-        if not (inspect.isfunction(f) and f.__module__ == Z.__name__):
-            continue
+        if not (inspect.isfunction(f) and f.__module__ == Z.__name__) or name.startswith("_"):
+            continue                      # private helpers are not part of the package-level API (`from .zernike import *` skips them)
         for api, A in APIS[1:]:
             g = getattr(A, name, None)
             chk.oracle_cases += 1
@@ -1180,9 +1180,12 @@ def oracle_round5(chk, quick):
         kpow = rng.choice([-200, -60, 60, 200])
         sc = [v * 2.0 ** kpow for v in vals]
         ok, ph2 = lib_call(chk, "phaseFromZernikes:scaled", dict(rep, scaled_by="2**%d" % kpow), A.phaseFromZernikes, numpy.array(sc), N, norm, rot)
-        if ok and not numpy.array_equal(numpy.asarray(ph2), ph * 2.0 ** kpow):
+        # (to rounding, not bit for bit: the sum over modes may go through a BLAS kernel whose blocking depends on the alignment of the
+        #  buffers of that call — a harmless tensordot formulation differs in the last bit between two calls)
+        if ok and not (numpy.asarray(ph2).shape == ph.shape and
+                       float(numpy.abs(numpy.asarray(ph2) / 2.0 ** kpow - ph).max()) <= 1e-12 * max(float(numpy.abs(ph).max()), 1e-300)):
             chk.fail("phase-linear:scale:%s" % ("tiny" if kpow < 0 else "huge"),
-                     "phaseFromZernikes(2^%d·c, %d, %s, rot=%r) ≠ 2^%d·phaseFromZernikes(c, …) (exact for a linear map)" % (kpow, N, norm, rot, kpow),
+                     "phaseFromZernikes(2^%d·c, %d, %s, rot=%r) ≠ 2^%d·phaseFromZernikes(c, …) (a linear map: equal to rounding)" % (kpow, N, norm, rot, kpow),
                      dict(rep, scaled_by="2**%d" % kpow))
     for N in (5, 8):                                    # the empty coefficient vector is the zero phase
         chk.oracle_cases += 1
